@@ -13,7 +13,7 @@ META = {
 def run(ctx):
     q = ctx.quick()
     plans = [
-        {"world": "focus_conc", "conc": True, "steps": 6 if q else 7},
+        {"world": "focus_conc", "conc": True, "steps": 6 if q else 7, "cap": None if q else 80000},
         {"world": "focus_valsets", "cover": True, "steps": 6 if q else 7, "avoid": False},
         {"world": "focus_rounds", "cover": True, "steps": 5 if q else 7, "avoid": False, "crash": False},
         {"world": "wide", "sim": 4 if q else 30, "steps": 6 if q else 8, "avoid": False, "cap": 350 if q else 6000, "seeds": 1 if q else 3},
